@@ -397,15 +397,41 @@ def run_handler(case, drain=True):
 
 
 def term_handler(case, out):
+    """CHandler term; byte strings that occur more than once (the queued response shows up in the buffer,
+    hq and sent columns of every later observation) are bound once with a Coq let"""
+    import collections
+    count = collections.Counter()
+    def visit(x):
+        if isinstance(x, (bytes, bytearray)) and len(x) >= 12:
+            count[bytes(x)] += 1
+    orc = out['orc'] or dict(queue=[], end=('ret', False))
+    for q in orc['queue']: visit(q)
+    for o in out['ocd']:
+        for q in o['queue']: visit(q)
+    for e in case['events']:
+        visit(e.get('r'))
+    for o in out['steps']:
+        for x in o['buffer'] + o['hq'] + o['ocd'] + [o['sent']]: visit(x)
+    names = {b: 'p%d' % i for i, (b, n) in enumerate(count.items()) if n > 1}
+    global cb
+    plain_cb = cb
+    def shared_cb(x):
+        x = bytes(x)
+        return names[x] if x in names else plain_cb(x)
     kl = out['klasses']
     cfg = '{| agent := %s; plugin_klasses := %s; max_send := %d |}' % (
-        cb(out['agent']),
+        plain_cb(out['agent']),
         'None' if kl is None else '(Some %s)' % C.coq_list(C.coq_list(PROTO_NAME[p] for p in ps if p in PROTO_NAME) for ps in kl),
         out['max_send'])
-    orc = out['orc'] or dict(queue=[], end=('ret', False))
-    return 'CHandler %s %s %s %s %s' % (cfg, coq_orc(orc), C.coq_list(coq_ocd(o) for o in out['ocd']),
-                                        C.coq_list(coq_event(e) for e in case['events']),
-                                        C.coq_list(coq_obs(o) for o in out['steps']))
+    cb = shared_cb
+    try:
+        body = 'CHandler %s %s %s %s %s' % (cfg, coq_orc(orc), C.coq_list(coq_ocd(o) for o in out['ocd']),
+                                            C.coq_list(coq_event(e) for e in case['events']),
+                                            C.coq_list(coq_obs(o) for o in out['steps']))
+    finally:
+        cb = plain_cb
+    lets = ''.join('let %s := %s in ' % (n, plain_cb(b)) for b, n in names.items())
+    return '(%s%s)' % (lets, body) if lets else body
 
 
 # ====================================================================== builders on the implementation
@@ -483,13 +509,20 @@ CANNED = ['PROXY_TUNNEL_ESTABLISHED_RESPONSE_PKT', 'PROXY_TUNNEL_UNSUPPORTED_SCH
           'BAD_REQUEST_RESPONSE_PKT', 'NOT_FOUND_RESPONSE_PKT', 'NOT_IMPLEMENTED_RESPONSE_PKT', 'BAD_GATEWAY_RESPONSE_PKT']
 
 
-def term_recognise(raw, connect, h, lenient):
+def recog_args(raw, h, lenient):
+    """h11's verdict as Coq arguments: code status nheaders blen body"""
     if not h['ok']:
-        return 'CRecognise %s %s 0 0 0 []' % (C.coq_bool(connect), cb(raw))
+        return '0 0 0 0 None'
     # h11 folds repeated identical Content-Length lines into one header; count the lines as sent
     ncl = sum(1 for ln in raw.split(b'\r\n\r\n', 1)[0].split(b'\r\n')[1:] if ln.split(b':', 1)[0].lower() == b'content-length')
     nh = len(h['headers']) + max(0, ncl - 1)
-    return 'CRecognise %s %s %d %d %d %s' % (C.coq_bool(connect), cb(raw), 2 if lenient else 1, h['status'], nh, cb(h['body']))
+    body = h['body']
+    is_suffix = raw.endswith(body) if body else True
+    return '%d %d %d %d %s' % (2 if lenient else 1, h['status'], nh, len(body), 'None' if is_suffix else '(Some %s)' % cb(body))
+
+
+def term_recognise(raw, connect, h, lenient):
+    return 'CRecognise %s %s %s' % (C.coq_bool(connect), cb(raw), recog_args(raw, h, lenient))
 
 
 def coq_term(case, out):
@@ -498,9 +531,8 @@ def coq_term(case, out):
         return term_handler(case, out)
     if k == 'build':
         connect = case.get('connect', False)
-        return ['CBuild %s %s' % (coq_bargs(case['args']), cb(out['raw'])),
-                'CWfArgs %s %s %s' % (C.coq_bool(connect), coq_bargs(case['args']), C.coq_bool(out['h11']['ok'])),
-                term_recognise(out['raw'], connect, out['h11'], h11_lenient_trigger(out['raw']))]
+        return 'CBuild %s %s %s %s' % (C.coq_bool(connect), coq_bargs(case['args']), cb(out['raw']),
+                                       recog_args(out['raw'], out['h11'], h11_lenient_trigger(out['raw'])))
     if k == 'ok':
         return 'COk %s %s %s %s %s %s %s %s' % (cb(case['gz_out']), cob(case['content']), coq_hdrs(case['headers']),
                                                 C.coq_bool(case['compress']), cZ(case['min_len']), C.coq_bool(case['conn_close']),
@@ -834,7 +866,7 @@ def generate(rng, tier):
     quick = tier != 'thorough'
     cases = []
     # ---------------- handler: byte strings x segmentations, real plugins
-    nstr = 330 if quick else 9000
+    nstr = 330 if quick else 4500
     for _ in range(nstr):
         d = H.gen_message(rng, kind=1, max_body=40)
         raw = d['raw']
@@ -854,7 +886,7 @@ def generate(rng, tier):
                 evs = sprinkle(rng, evs)
             cases.append(dict(kind='handler', setup=setup, events=evs, gen='malformed' if malformed else 'valid'))
     # ---------------- handler: scripted plugin outcomes
-    for _ in range(170 if quick else 4000):
+    for _ in range(170 if quick else 2500):
         d = H.gen_message(rng, kind=1, max_body=20)
         raw = d['raw']
         if rng.random() < 0.15:
@@ -865,14 +897,14 @@ def generate(rng, tier):
             evs = sprinkle(rng, evs)
         cases.append(dict(kind='handler', setup='scripted', script=gen_script(rng), events=evs, gen='scripted'))
     # ---------------- builders
-    nb = 420 if quick else 14000
+    nb = 450 if quick else 12000
     for i in range(nb):
         a = gen_args(rng, wf=rng.random() < 0.65)
         connect = rng.random() < 0.15
         if connect and rng.random() < 0.5:
             a['status'] = rng.choice([200, 201]); a['body'] = None
         cases.append(dict(kind='build', args=a, connect=connect))
-    for i in range(110 if quick else 4000):
+    for i in range(110 if quick else 3000):
         a = gen_args(rng, wf=rng.random() < 0.85)
         content = rng.choice([None, b'', b'x' * rng.choice([1, 19, 20, 21, 22, 100]), H.rbody(rng, rng.randint(1, 60))])
         cases.append(dict(kind='ok', content=content, headers=a['headers'], compress=rng.random() < 0.7,
@@ -880,16 +912,16 @@ def generate(rng, tier):
                           gz_out=rng.choice([b'\x1f\x8b' + H.rbody(rng, rng.randint(1, 30)), b'', b'z'])))
     for w in range(len(CANNED)):
         cases.append(dict(kind='canned', which=w))
-    for _ in range(30 if quick else 800):
+    for _ in range(30 if quick else 500):
         loc = rng.choice([b'http://x/', b'/a?b=c', b'', b'https://h:8443/p q', b'a\r\nb', H.rpath(rng), bytes(rng.choice(RVAL) for _ in range(rng.randint(1, 20)))])
         cases.append(dict(kind='redirect', permanent=rng.random() < 0.5, location=loc))
-    for _ in range(60 if quick else 1500):
+    for _ in range(60 if quick else 1000):
         x = gen_exc_spec(rng)
         if x[0] in ('other', 'oserror'):
             continue
         cases.append(dict(kind='exn', exc=x))
     # ---------------- recogniser vs h11 on mutated packets
-    for _ in range(260 if quick else 9000):
+    for _ in range(260 if quick else 6000):
         a = gen_args(rng, wf=True)
         connect = rng.random() < 0.1
         try:
